@@ -2,6 +2,7 @@ package main
 
 import (
 	"go/token"
+	"go/types"
 	"strings"
 
 	"golang.org/x/tools/go/ssa"
@@ -270,6 +271,7 @@ func (f *Flow) edgeFacts(from *ssa.BasicBlock, succIdx int, out Facts) Facts {
 			res.Add(a)
 			addConjuncts(res, a)
 			f.unitPropagate(res, a)
+			f.saturate(res)
 			// what a validator's verdict implies is materialised here, so that later writes kill it fact by fact
 			f.addDerived(res, a)
 		}
@@ -317,7 +319,16 @@ func (f *Flow) transfer(in ssa.Instruction, facts Facts) {
 		if mt.Op == "make" {
 			w["mem:"+mt.Key()] = true
 		}
+		// the not-seen idiom: the key is known to be absent right before it is inserted
+		kt := f.C.Term(x.Key)
+		notSeen := facts.Has(&Atom{Pred: "truth", Args: []*Term{T("haskey", "", mt, kt)}, Neg: true}) != nil
+		if !notSeen && f.C.Term(x.Value).Key() == tTrue.Key() {
+			notSeen = facts.Has(&Atom{Pred: "truth", Args: []*Term{T("lookup", "", mt, kt)}, Neg: true}) != nil
+		}
 		f.kill(facts, w)
+		if notSeen {
+			facts.Add(&Atom{Pred: "fresh", Args: []*Term{mt, kt}, Site: f.A.P.InstrPos(in)})
+		}
 	case ssa.CallInstruction:
 		c := x.Common()
 		if isLoggingCall(c) {
@@ -333,6 +344,25 @@ func (f *Flow) transfer(in ssa.Instruction, facts Facts) {
 			mt := f.C.Term(c.Args[0])
 			if mt.Op == "make" {
 				w["mem:"+mt.Key()] = true
+			}
+		}
+		// a locally made map handed to a callee may be updated there
+		if _, isB := c.Value.(*ssa.Builtin); !isB {
+			for _, arg := range c.Args {
+				if _, isMap := arg.Type().Underlying().(*types.Map); isMap {
+					if at := f.C.Term(arg); at.Op == "make" {
+						if w == nil {
+							w = map[string]bool{}
+						} else if !w["mem:"+at.Key()] {
+							w2 := map[string]bool{"mem:" + at.Key(): true}
+							for k := range w {
+								w2[k] = true
+							}
+							w = w2
+						}
+						w["mem:"+at.Key()] = true
+					}
+				}
 			}
 		}
 		if len(w) > 0 {
@@ -533,6 +563,28 @@ func (f *Flow) unitPropagate(facts Facts, a *Atom) {
 				addConjuncts(facts, c)
 				f.addDerived(facts, c)
 			}
+		}
+	}
+}
+
+// saturate: unit propagation over every clause-shaped fact until nothing new is learned (bounded).
+func (f *Flow) saturate(facts Facts) {
+	for round := 0; round < 4; round++ {
+		var cl []*Atom
+		for _, x := range facts {
+			if x.Pred == "truth" && len(x.Args) == 1 && ((x.Args[0].Op == "and" && x.Neg) || (x.Args[0].Op == "or" && !x.Neg)) {
+				cl = append(cl, x)
+			}
+		}
+		if len(cl) == 0 {
+			return
+		}
+		n := len(facts)
+		for _, x := range cl {
+			f.unitPropagate(facts, x)
+		}
+		if len(facts) == n {
+			return
 		}
 	}
 }
@@ -834,12 +886,87 @@ func (f *Flow) computeLoopExit(l *Loop, outs map[*ssa.BasicBlock]Facts) Facts {
 			mt, kt := f.C.Term(mu.Map), f.C.Term(mu.Key)
 			seen1 := &Atom{Pred: "truth", Args: []*Term{T("lookup", "", mt, kt)}, Neg: true}
 			seen2 := &Atom{Pred: "truth", Args: []*Term{T("haskey", "", mt, kt)}, Neg: true}
-			if at.Has(seen1) != nil || at.Has(seen2) != nil {
+			if (at.Has(seen1) != nil && f.C.Term(mu.Value).Key() == tTrue.Key()) || at.Has(seen2) != nil {
 				res.Add(&Atom{Pred: "unique", Args: []*Term{coll, generalize(kt, l, coll)}, Site: f.A.P.InstrPos(in)})
 			}
 		}
 	}
+	// the same idiom with the check-and-insert inside a helper that is handed the set: every iteration that reaches
+	// a latch is known to have inserted a key that was absent (fresh), and nothing else touches the set
+	for _, a := range g {
+		if a.Pred != "fresh" || len(a.Args) != 2 || a.Args[0].Op != "make" {
+			continue
+		}
+		if !a.Args[1].Contains(func(t *Term) bool { return isElemOf(t, l) }) {
+			continue
+		}
+		if mm := f.insertOnlySet(a.Args[0], l); mm != nil {
+			res.Add(&Atom{Pred: "unique", Args: []*Term{coll, generalize(a.Args[1], l, coll)}, Site: a.Site})
+		}
+	}
 	return res
+}
+
+// insertOnlySet: the map made outside loop l whose term is mt, when its only uses are lookups and exactly one inserting
+// site inside the loop: a direct update, or a call to a library function that only looks its parameter up and inserts
+// into it at one place.
+func (f *Flow) insertOnlySet(mt *Term, l *Loop) *ssa.MakeMap {
+	for _, b := range f.C.Fn.Blocks {
+		for _, in := range b.Instrs {
+			mm, ok := in.(*ssa.MakeMap)
+			if !ok || l.Body[b] || f.C.Term(mm).Key() != mt.Key() {
+				continue
+			}
+			inserts := 0
+			for _, r := range *mm.Referrers() {
+				switch x := r.(type) {
+				case *ssa.Lookup, *ssa.DebugRef:
+				case *ssa.MapUpdate:
+					if x.Map != ssa.Value(mm) || !l.Body[x.Block()] {
+						return nil
+					}
+					inserts++
+				case *ssa.Call:
+					g := x.Call.StaticCallee()
+					if g == nil || g.Blocks == nil || !l.Body[x.Block()] || x.Call.IsInvoke() {
+						return nil
+					}
+					for i, arg := range x.Call.Args {
+						if arg != ssa.Value(mm) {
+							continue
+						}
+						if i >= len(g.Params) {
+							return nil
+						}
+						n := 0
+						for _, pr := range *g.Params[i].Referrers() {
+							switch y := pr.(type) {
+							case *ssa.Lookup, *ssa.DebugRef:
+							case *ssa.MapUpdate:
+								if y.Map != ssa.Value(g.Params[i]) {
+									return nil
+								}
+								n++
+							default:
+								return nil
+							}
+						}
+						if n != 1 {
+							return nil
+						}
+						inserts++
+					}
+				default:
+					return nil
+				}
+			}
+			if inserts == 1 {
+				return mm
+			}
+			return nil
+		}
+	}
+	return nil
 }
 
 var _ = token.ADD
